@@ -33,14 +33,7 @@ Proof.
   cbn [Liter Linv_iter]. rewrite IH by (apply L_bound; exact B). apply Linv_L. exact B.
 Qed.
 
-(* ---------- error bytes ---------- *)
-Definition xor_bytes (a b : list N) : list N := map (fun p => N.lxor (fst p) (snd p)) (combine a b).
-(* every set bit (byte j, bit t counted from the most significant) lies at MSB-first position p .. p+len-1 *)
-Definition in_window_msb (E : list N) (p len : nat) : Prop :=
-  forall j t, (t < 8)%nat -> N.testbit (nth j E 0) (N.of_nat (7 - t)) = true -> (p <= 8 * j + t < p + len)%nat.
-(* l' differs from l only inside len contiguous bits, bits numbered MSB first within bytes *)
-Definition burst_msb (len : nat) (l l' : list N) : Prop := exists p, in_window_msb (xor_bytes l l') p len.
-
+(* ---------- error bytes (xor_bytes, in_window_msb, burst_msb: Codec/BitErr.v) ---------- *)
 Lemma bits_of_byte_lxor x y : bits_of_byte (N.lxor x y) = xorl (bits_of_byte x) (bits_of_byte y).
 Proof. unfold bits_of_byte, xorl. cbn [map combine fst snd]. rewrite !N.lxor_spec. reflexivity. Qed.
 Lemma bits_xor_bytes a : forall b, bits_of_bytes (xor_bytes a b) = diff_bits a b.
@@ -255,12 +248,6 @@ Proof.
 Qed.
 
 (* ---------- exactly 32 MSB-first bits: the undetected patterns are exactly two ---------- *)
-Definition gen_pat1 : list N := [98; 149; 227; 253; 128].   (* 62 95 e3 fd 80, window starts at bit offset 1 *)
-Definition gen_pat2 : list N := [1; 3; 131; 107; 242].      (* 01 03 83 6b f2, window starts at bit offset 7 *)
-(* one of the two patterns at some byte offset, zero elsewhere *)
-Definition is_gen_multiple (E : list N) : Prop :=
-  exists j r pat, (pat = gen_pat1 \/ pat = gen_pat2) /\ E = repeat 0 j ++ pat ++ repeat 0 r.
-
 Definition msb32_check : bool :=
   forallb (fun h => forallb (fun a =>
     existsb (fun t =>
